@@ -398,3 +398,8 @@ TECHNIQUE = 'Lean 4 proofs about Kahn layering and the step phase + trace/graph-
 from harness import structstep as _ss          # noqa: E402
 from harness.mixins import add_family as _add_family   # noqa: E402
 _add_family(globals(), _ss, 'structstep', lambda case, impl: _ss.oracle(case, impl, who=('census',)))
+
+# flows of nested compartments and of compartments created at run time (constructor / composite / store entry,
+# `_generate` with a key, `_divide` with inherited flow)
+from harness import dynflow as _df                  # noqa: E402
+_add_family(globals(), _df, 'dynflow', _df.oracle, share=0.1)
